@@ -168,6 +168,24 @@ theorem fast_eq_generic_grad_noweights (ss : List (Sched K m nv)) (x : Vec K nv)
 
 end fastThms
 
+section symmHess
+/-- C12 (the Hessian of the Taylor identity is symmetric): `hessian[α,β] = hessian[β,α]` for symmetric weights — so `wse_taylor`
+determines it completely as the second derivative. -/
+theorem wseHessHalf_symm {K : Type} [Field K] {m nv : Nat} (ss : List (Sched K m nv)) (Ws : Option (List (Mat K m m)))
+    (x : Vec K nv) (l : List (Sched K m nv × Option (Mat K m m))) (hl : resolve Ws ss 0 = some l)
+    (hs : SymWeights l) (α β : Fin nv) :
+    wseHessHalf ss Ws x α β = wseHessHalf ss Ws x β α := by
+  unfold wseHessHalf
+  rw [sumSched_eq, sumSched_eq, hl]
+  simp only
+  congr 1
+  refine congrArg List.sum (List.map_congr_left fun p hp => ?_)
+  simp only [bil_eq]
+  rw [sym_swap _ (hs p hp)]
+
+end symmHess
+
+
 /-! ## option wiring -/
 section wiringThms
 variable {K : Type} [Field K] [LinearOrder K] [IsStrictOrderedRing K] {m : Nat}
@@ -253,8 +271,8 @@ theorem generic_mode_takes_effect (atol : K) (st st' : GenWse K m) (opt : Opt K 
 /-- C12 (every accepted mode string takes effect, fast loss): whenever configuration succeeds — from any
 earlier state, fresh or re-used, gradient required or not — the weight matrices in force are the mode's, the
 same as for the generic loss, and the cached block matrix `_extend_weight_matrix` is built from exactly these
-matrices (none when there are none); so by `fast_eq_generic_value/grad` the fast value and gradient are the
-generic ones in every mode. -/
+matrices (none when there are none). Model-level statement about the cached fields; the value-level consequence, with its shape
+hypotheses, is `fast_eq_generic_after_configure`. -/
 theorem fast_mode_takes_effect (atol : K) (st st' : FastWse K m) (opt : Opt K m) (grad : Bool)
     (G : List (Mat K (m - 1) (m - 1))) (h : configureFast atol st opt grad G = .ok st') :
     st'.weightMatrices = modeWeights opt G ∧ st'.extW.map (·.blocks) = modeWeights opt G := by
@@ -309,6 +327,60 @@ theorem wre_identity_resets_weights (st : WreState K) (lens : List Nat) (fast gr
     (configureWre st none lens fast grad).weights = none := by
   unfold configureWre calcExtWeights
   cases fast <;> cases grad <;> cases hw : st.weights <;> simp [hw]
+
+/-- an EMPTY custom weight list: the generic loss configures (and then evaluates unweighted, `if self.weight_matrices:`), the fast loss
+raises `IndexError` in `_calc_extend_weight_matrix` (`self.weight_matrices[0]`) — from any earlier state. -/
+theorem configureFast_empty_custom_raises (atol : K) (st : FastWse K m) (sg : GenWse K m) (grad : Bool)
+    (G : List (Mat K (m - 1) (m - 1))) (h0 : ∃ st1, calcExt st = .ok st1) :
+    configureFast atol st (mkOpt .custom (some [])) grad G = .error .index ∧
+    configureGen atol sg (mkOpt .custom (some [])) G = .ok ⟨some []⟩ := by
+  obtain ⟨st1, h1⟩ := h0
+  constructor
+  · unfold configureFast
+    have h2 : calcExt st1 = .ok st1 := by
+      unfold calcExt at h1 ⊢
+      cases hw : st.weightMatrices with
+      | none => simp only [hw] at h1; injection h1 with h1; subst h1; simp
+      | some ws =>
+        cases ws with
+        | nil => simp [hw] at h1
+        | cons w r => simp only [hw] at h1; injection h1 with h1; subst h1; simp
+    cases grad <;> simp only [h1, h2, mkOpt, weightsByMode, validWs, List.all_nil, if_true, setWeightsFast,
+      Bool.false_eq_true, if_false] <;> rfl
+  · simp [configureGen, mkOpt, weightsByMode, validWs]
+
+/-- C12 (fast = generic after configuration, end to end): when both the fast and the generic loss have been configured with the same
+option (from ANY earlier states) and the mode's weight list, if any, is non-empty with one matrix per schedule, the fast value and every
+gradient component equal the generic ones. (Without the shape hypothesis the two classes differ: an empty custom list is an `IndexError`
+for the fast class only — `configureFast_empty_custom_raises` — and surplus matrices are ignored by the generic loss but a shape error
+for the fast one.) -/
+theorem fast_eq_generic_after_configure {K : Type} [Field K] [LinearOrder K] [IsStrictOrderedRing K] {m nv : Nat}
+    (atol : K) (sf sf' : FastWse K m) (sg sg' : GenWse K m) (opt : Opt K m) (grad : Bool)
+    (G : List (Mat K (m - 1) (m - 1))) (ss : List (Sched K m nv)) (x : Vec K nv)
+    (hf : configureFast atol sf opt grad G = .ok sf') (hg : configureGen atol sg opt G = .ok sg')
+    (hshape : ∀ Ws, modeWeights opt G = some Ws → Ws ≠ [] ∧ ss.length = Ws.length) :
+    fastValue ss sf'.extW x = wseValue ss sg'.weightMatrices x ∧
+    ∀ α, fastGradHalf ss sf'.extW x α = wseGradHalf ss sg'.weightMatrices x α := by
+  have h1 := fast_mode_takes_effect atol sf sf' opt grad G hf
+  have h2 := generic_mode_takes_effect atol sg sg' opt G hg
+  rw [h2]
+  cases hw : modeWeights opt G with
+  | none =>
+    have : sf'.extW = none := by
+      have := h1.2; rw [hw] at this
+      cases he : sf'.extW <;> simp_all
+    rw [this]
+    exact ⟨fast_eq_generic_value_noweights ss x, fun α => fast_eq_generic_grad_noweights ss x α⟩
+  | some Ws =>
+    obtain ⟨hne, hlen⟩ := hshape Ws hw
+    have : sf'.extW = some ⟨Ws⟩ := by
+      have := h1.2; rw [hw] at this
+      cases he : sf'.extW with
+      | none => simp [he] at this
+      | some e => cases e; simp_all
+    rw [this]
+    exact ⟨fast_eq_generic_value ss Ws x hne hlen, fun α => fast_eq_generic_grad ss Ws x α hne hlen⟩
+
 
 end wiringThms
 
@@ -381,6 +453,18 @@ theorem gen_wse_accepted_handled :
     (∀ md ∈ QGen.C12.wseAccepted, md ∈ [Mode.identity, .custom, .invSample, .invUnbiased, .unbiasedInv].map modeName) ∧
     QGen.C12.wseBranch "unbiased_inverse_covariance" = some (.invCov true) := by
   decide
+
+/-- C12 (source tie, sample vs unbiased covariance): the denominator flag the driver uses (`modeUnbiased`) is the one of the generated
+branch — a mode wired to the other covariance in the source breaks this proof — and the matrix handed to `np.linalg.inv` differs between
+the two kinds of mode exactly in that denominator (`num_data − 1` vs `num_data`). -/
+theorem gen_unbiased_flag (md : Mode) (b : Bool) (h : QGen.C12.wseBranch (modeName md) = some (.invCov b)) :
+    modeUnbiased md = b := by
+  cases md <;> revert h <;> cases b <;> decide
+
+theorem extractedFor_denominator (md : Mode) (q : Vec K m) (eps n n32 : K) :
+    extractedFor md q eps n n32
+      = extracted (covMat (replaceVec q eps) (if modeUnbiased md then n - 1 else n)) n32 := by
+  unfold extractedFor covDenom; rfl
 
 end generatedThms
 
@@ -773,7 +857,7 @@ theorem relEnt_region_q_below (epsq epsp q p g a b : ℝ) (hq : q < epsq) :
 constant in `p` (derivative `0`, Mathlib `HasDerivAt`), while `gradient_relative_entropy_2nd` returns `−q·∂p/eps_p`:
 inside the clipping region the reported gradient is NOT the derivative of the reported value (unless `q·∂p = 0`) —
 which is why the property is stated "away from the documented clipping thresholds". -/
-theorem relEnt_region_p_clipped (epsq epsp q p g : ℝ) (hq : epsq ≤ q) (hp : p < epsp) :
+theorem relEnt_region_p_clipped (epsq epsp q p g : ℝ) (hq : epsq ≤ q) (hp : p < epsp) (_hpos : 0 < epsp) :
     HasDerivAt (termAt epsq epsp q) 0 p ∧ relEntGrad epsq epsp [q] [p] [g] = -q * g / epsp := by
   constructor
   · have hconst : termAt epsq epsp q =ᶠ[𝓝 p] fun _ => termAt epsq epsp q p := by
@@ -809,13 +893,87 @@ theorem relEnt_region_ratio_clipped (epsq epsp q p g : ℝ) (hq : epsq ≤ q) (h
 
 -- non-vacuity of the region hypotheses
 example := relEnt_region_q_below (1/10) (1/10) (1/20) (1/2) 1 1 1 (by norm_num)
-example := relEnt_region_p_clipped (1/10) (1/10) (1/2) (1/20) 1 (by norm_num) (by norm_num)
+example := relEnt_region_p_clipped (1/10) (1/10) (1/2) (1/20) 1 (by norm_num) (by norm_num) (by norm_num)
 example := relEnt_region_ratio_clipped (1/100) (1/10) (1/50) (1/2) 1 (by norm_num) (by norm_num) (by norm_num) (by norm_num)
 example : AwayAt (1/10) (1/10) [⟨1/2, 1/2, 1, 1⟩] 0 := by
   intro x hx
   simp only [List.mem_singleton] at hx
   subst hx
   norm_num
+
+/-- every outcome is either skipped by the kernel (`q < eps_q`, e.g. an exactly-zero empirical entry) or away from
+all clipping thresholds -/
+def AwayOrSkipped (epsq epsp : ℝ) (l : List Pt) (t : ℝ) : Prop :=
+  ∀ x ∈ l, x.q < epsq ∨
+    (0 < x.q ∧ epsq ≤ x.q ∧ 0 < x.p + t * x.d ∧ epsp < x.p + t * x.d ∧ epsp < x.q / (x.p + t * x.d))
+
+noncomputable def kept (epsq : ℝ) (l : List Pt) : List Pt := l.filter fun x => decide (epsq ≤ x.q)
+
+theorem valueAt_kept (epsq epsp : ℝ) (l : List Pt) (t : ℝ) :
+    valueAt epsq epsp l t = valueAt epsq epsp (kept epsq l) t := by
+  unfold valueAt kept
+  induction l with
+  | nil => rfl
+  | cons x r ih =>
+    by_cases h : epsq ≤ x.q
+    · simp only [qsOf, psAt, logsAt, List.map_cons, relEnt, List.filter_cons, h, decide_true, if_true] at ih ⊢
+      rw [ih]
+    · simp only [qsOf, psAt, logsAt, List.map_cons, relEnt, List.filter_cons, h, decide_false, if_false,
+        Bool.false_eq_true, zero_add] at ih ⊢
+      rw [ih]
+
+theorem relEntGrad_kept (epsq epsp : ℝ) (l : List Pt) (t : ℝ) :
+    relEntGrad epsq epsp (qsOf l) (psAt l t) (dsOf l)
+      = relEntGrad epsq epsp (qsOf (kept epsq l)) (psAt (kept epsq l) t) (dsOf (kept epsq l)) := by
+  unfold kept
+  induction l with
+  | nil => rfl
+  | cons x r ih =>
+    by_cases h : epsq ≤ x.q
+    · simp only [qsOf, psAt, dsOf, List.map_cons, relEntGrad, List.filter_cons, h, decide_true, if_true] at ih ⊢
+      rw [ih]
+    · simp only [qsOf, psAt, dsOf, List.map_cons, relEntGrad, List.filter_cons, h, decide_false, if_false,
+        Bool.false_eq_true, zero_add] at ih ⊢
+      rw [ih]
+
+/-- C12 (relative entropy, gradient is the derivative — data WITH zero entries): every outcome is either skipped by the kernel
+(`q < eps_q`, in particular an exactly-zero empirical entry) or away from all clipping thresholds; then along every line the model's value
+kernel has the model's gradient as derivative. This is the statement for the property's quantifier "all empirical distributions including
+zero entries". -/
+theorem wre_gradient_hasDerivAt_mixed (epsq epsp : ℝ) (l : List Pt) (h : AwayOrSkipped epsq epsp l 0) :
+    HasDerivAt (valueAt epsq epsp l) (relEntGrad epsq epsp (qsOf l) (psAt l 0) (dsOf l)) 0 := by
+  have hk : AwayAt epsq epsp (kept epsq l) 0 := by
+    intro x hx
+    simp only [kept, List.mem_filter, decide_eq_true_eq] at hx
+    rcases h x hx.1 with h1 | h1
+    · exact absurd hx.2 (not_le.mpr h1)
+    · exact h1
+  have := wre_gradient_hasDerivAt epsq epsp (kept epsq l) hk
+  rw [← relEntGrad_kept] at this
+  have hfun : valueAt epsq epsp l = valueAt epsq epsp (kept epsq l) := funext (valueAt_kept epsq epsp l)
+  rw [hfun]
+  exact this
+
+-- non-vacuity with a zero empirical entry
+example : AwayOrSkipped (1/10) (1/10) [⟨0, 1/2, 1, 1⟩, ⟨1/2, 1/2, 1, -1⟩] 0 := by
+  intro x hx
+  simp only [List.mem_cons, List.not_mem_nil, or_false] at hx
+  rcases hx with rfl | rfl
+  · left; norm_num
+  · right; norm_num
+
+
+/-- C12 (relative entropy, value formula with zero entries): the kernel's value is `Σ_{q_i ≥ eps_q} q_i log(q_i/p_i)` — skipped outcomes
+contribute nothing. -/
+theorem wre_value_formula_mixed (epsq epsp : ℝ) (l : List Pt) (h : AwayOrSkipped epsq epsp l 0) :
+    valueAt epsq epsp l 0 = ((kept epsq l).map fun x => x.q * Real.log (x.q / x.p)).sum := by
+  have hk : AwayAt epsq epsp (kept epsq l) 0 := by
+    intro x hx
+    simp only [kept, List.mem_filter, decide_eq_true_eq] at hx
+    rcases h x hx.1 with h1 | h1
+    · exact absurd hx.2 (not_le.mpr h1)
+    · exact h1
+  rw [valueAt_kept, wre_value_formula epsq epsp _ hk]
 
 end deriv
 
@@ -849,6 +1007,21 @@ example : (invCovWeight (K := Rat) (m := 3) (Mat.ofFn fun i j => (i.val : Rat) *
     = [[1, 5/2, 0], [5/2, 4, 0], [0, 0, 0]] := by
   decide +kernel
 
+-- full instantiation of `wse_taylor` (all hypotheses at once)
+example : True := by
+  have s1 : Sched Rat 1 1 := ⟨Mat.ofFn fun _ _ => 2, Vec.ofFn fun _ => 1, Vec.ofFn fun _ => 0⟩
+  have x1 : Vec Rat 1 := Vec.ofFn fun _ => 1
+  have := wse_taylor (K := Rat) [s1] none x1 x1 [(s1, none)] (by simp [resolve, weightAt])
+    (by intro p hp; simp only [List.mem_singleton] at hp; subst hp; simp [wmat])
+  trivial
+-- weighted relative entropy: two schedules with 2 and 3 outcomes, weights [2, 3] — fast sum = generic sum
+example : fastWreSum (K := Rat) ⟨some [2, 3], some (extendW [2, 3] [2, 3])⟩ [1, 1, 5, 5, 5]
+    = wreSum (some [2, 3]) [2, 15] := by decide +kernel
+-- an empty custom list: generic evaluates unweighted, the fast relative-entropy value is numpy's broadcast error
+example : (wreSum (K := Rat) (some []) [1, 2]).toOption = some 3 ∧
+    (fastWreSum (K := Rat) ⟨some [], some []⟩ [1, 2]).toOption = none := by decide +kernel
+-- a length-1 weight vector broadcasts in the fast value (numpy), it does not truncate
+example : (fastWreSum (K := Rat) ⟨some [2], some [2]⟩ [1, 10, 100]).toOption = some 222 := by decide +kernel
 -- non-vacuity: the hypotheses of the Taylor identity / fast-path theorems are satisfiable
 example (s : Sched Rat 2 1) :
     resolve (none : Option (List (Mat Rat 2 2))) [s] 0 = some [(s, none)] := by
